@@ -148,6 +148,15 @@ theorem site_CountEEMs_perm_invariant (acc : List (EemKey × Mut)) (l l' : List 
   unfold eemRecords
   rw [eemLoop_perm acc h hn]
 
+/-- the WHOLE of `mutations.CountEEMs` (per site: `countEEMSiteBranch`, then the merge in sorted key order):
+    the records — branch index and child node name included — do not depend on how Go lists the per-site
+    maps.  This is the function the driver runs against the real `CountEEMs` (site case `eems`). -/
+theorem countEEMs_order_invariant (charOfAt : Nat → String → Char)
+    (ord₁ ord₂ : List (String × Mut) → List (String × Mut))
+    (h₁ : ∀ l, (ord₁ l).Perm l) (h₂ : ∀ l, (ord₂ l).Perm l) (nsites : Nat) (t : T) :
+    countEEMs charOfAt ord₁ nsites t = countEEMs charOfAt ord₂ nsites t :=
+  countEEMs_order charOfAt ord₁ ord₂ h₁ h₂ nsites t
+
 /-- before bf532dd the printed part (number of emergences per site/parent/child) was already
     order-independent when every collected mutation has NumEEM = 1 (as `countEEMSiteBranch` builds them) -/
 theorem site_CountEEMs_pinned_counts_perm_invariant (acc : List (EemKey × Mut)) (l l' : List (String × Mut))
@@ -235,6 +244,13 @@ theorem MutationListAppend_error_key_order_matters :
 theorem acrAlphabet_unsorted_order_matters :
     acrAlphabetUnsorted [("t1", "A"), ("t2", "B")] ≠ acrAlphabetUnsorted [("t2", "B"), ("t1", "A")] := by decide
 
+/-- excluded package `draw` (its commands ARE run by the templates): `initFonts` stores each font under its own
+    name, then the cache is only looked up — what `Load` returns does not depend on the order of the range -/
+theorem site_drawFonts_perm_invariant (l l' : List (String × String)) (h : l.Perm l')
+    (hn : nodupKeys l = true) (name : String) : fontCacheLoad l name = fontCacheLoad l' name := by
+  unfold fontCacheLoad
+  rw [get_foldl_put l [] name hn, get_foldl_put l' [] name (nodupKeys_perm h hn), get_perm h hn name]
+
 /-- excluded package `download` (not reachable offline): `writeMapfile` writes while ranging -/
 theorem ncbiMapLines_order_matters :
     ncbiMapLines [("1", "a"), ("2", "b")] ≠ ncbiMapLines [("2", "b"), ("1", "a")] := by decide
@@ -268,6 +284,104 @@ theorem provedSites_keys : provedSites.map (·.key) = provedSiteKeys := by decid
 
 /-- ★ the regenerated table (c) (packages in scope) is exactly the list of proved sites -/
 theorem sites_covered : coreSites.map (·.key) = provedSites.map (·.key) := by decide
+
+/-- a proved site BY CONSTRUCTION: the row carries the model function of the loop (`body`: parameters = the other
+    variables the loop reads, then the map entries in iteration order) and the proof that it returns the same
+    value for every listing of the same map — not an arbitrary proposition next to a key -/
+structure SiteProof where
+  key : String
+  model : String
+  case : String
+  P : Type
+  K : Type
+  V : Type
+  Out : Type
+  hyp : P → List (K × V) → Prop
+  body : P → List (K × V) → Out
+  inv : ∀ (p : P) (l l' : List (K × V)), l.Perm l' → hyp p l → body p l = body p l'
+
+def siteProofs : List SiteProof := [
+  { key := "acr/parsimony.go:ParsimonyAcr:466da4eec245#1", model := "acrAlphabet", case := "acralphabet",
+    P := Unit, K := String, V := String, Out := List String, hyp := fun _ _ => True,
+    body := fun _ l => acrAlphabet l, inv := fun _ l l' h _ => site_ParsimonyAcr_alphabet_perm_invariant l l' h },
+  { key := "cmd/acr.go:acrCmd:69d303350f73#1", model := "acrStateLines", case := "acrstates",
+    P := Unit, K := String, V := String, Out := List String, hyp := fun _ l => nodupKeys l = true,
+    body := fun _ l => acrStateLines l, inv := fun _ l l' h hn => site_acrStates_perm_invariant l l' h hn },
+  { key := "cmd/comparetips.go:difftipsCmd:b9b06c89dc0d#1", model := "compareTipsOutput", case := "comparetips",
+    P := List String, K := String, V := Bool, Out := List String, hyp := fun _ l => nodupKeys l = true,
+    body := fun p l => compareTipsOutput p l, inv := fun p l l' h hn => compareTipsOutput_perm_invariant p l l' h hn },
+  { key := "cmd/comparetrees.go:compareTreesCmd:f5977218f020#1", model := "rfLines", case := "rf",
+    P := Unit, K := Int, V := Int, Out := List String, hyp := fun _ l => nodupKeys l = true,
+    body := fun _ l => rfLines l, inv := fun _ l l' h hn => site_compareTreesRf_perm_invariant l l' h hn },
+  { key := "cmd/extractmutations.go:sortedMutationKeys:cff9c655e428#1", model := "sortedMutationKeys+mutationLines", case := "mutations",
+    P := Bool × Nat, K := String, V := Mut, Out := List String × List String, hyp := fun _ l => nodupKeys l = true,
+    body := fun p l => (sortedMutationKeys l, mutationLines p.1 p.2 l),
+    inv := fun p l l' h hn => by
+      rw [site_mutationKeys_perm_invariant l l' h, site_mutationLines_perm_invariant p.1 p.2 l l' h hn] },
+  { key := "cmd/rename.go:writeNameMap:fec59d425afe#1", model := "nameMapLines", case := "namemap",
+    P := Unit, K := String, V := String, Out := List String, hyp := fun _ l => nodupKeys l = true,
+    body := fun _ l => nameMapLines l, inv := fun _ l l' h hn => site_writeNameMap_perm_invariant l l' h hn },
+  { key := "mutations/counteems.go:CountEEMs:6958822e76a2#1", model := "eemRecords (inside countEEMs)", case := "eems",
+    P := List (EemKey × Mut), K := String, V := Mut, Out := EemKey → Option Mut, hyp := fun _ l => nodupKeys l = true,
+    body := fun p l => eemRecords p l, inv := fun p l l' h hn => site_CountEEMs_perm_invariant p l l' h hn },
+  { key := "mutations/countmutations.go:countMutationSiteBranch:f14ba4b390f3#1", model := "charDist (inside countMutationsSite)", case := "chardist",
+    P := List (Char × Nat), K := Char, V := Nat, Out := Char → Option Nat, hyp := fun _ _ => True,
+    body := fun p l => charDist p l, inv := fun p l l' h _ => site_charDistribution_perm_invariant p l l' h },
+  { key := "mutations/mutations.go:MutationList.Append:7cd4e9aa30b3#1", model := "mutAppend", case := "append",
+    P := List (String × Mut), K := String, V := Mut, Out := Option (String → Option Mut), hyp := fun _ l => nodupKeys l = true,
+    body := fun p l => mutAppend p l, inv := fun p l l' h hn => site_MutationListAppend_perm_invariant p l l' h hn },
+  { key := "tree/tipbags.go:TipBag.Tips:9479da34ef3f#1", model := "tipBagTips", case := "tipbag",
+    P := Unit, K := String, V := String, Out := List (Option String), hyp := fun _ l => nodupKeys l = true,
+    body := fun _ l => tipBagTips l, inv := fun _ l l' h hn => site_TipBagTips_perm_invariant l l' h hn },
+  { key := "tree/tree.go:Tree.UpdateTipIndex:105ae1ebc217#1", model := "updateTipIndex", case := "updatetipindex",
+    P := List (String × Nat), K := String, V := Nat, Out := Option (List (String × Nat)), hyp := fun _ _ => True,
+    body := fun p l => updateTipIndex p l, inv := fun p l l' h _ => site_UpdateTipIndex_perm_invariant p l l' h },
+  { key := "tree/tree.go:Tree.CompareTipIndexes:77f5fc7a8940#1", model := "compareTipIndexes", case := "comparetipindexes",
+    P := List String, K := String, V := String, Out := Bool, hyp := fun _ _ => True,
+    body := fun p l => compareTipIndexes p l, inv := fun p l l' h _ => site_CompareTipIndexes_perm_invariant p l l' h },
+  { key := "tree/tree.go:Tree.Rename:ea9659a5edb0#1", model := "renameFull", case := "rename",
+    P := List String × List Bool, K := String, V := String, Out := Option (List String), hyp := fun _ l => nodupKeys l = true,
+    body := fun p l => renameFull p.1 p.2 l, inv := fun p l l' h hn => Rename_whole_perm_invariant p.1 p.2 l l' h hn },
+  { key := "tree/tree.go:Tree.Merge:c3180b3fd5e1#1", model := "mergeDisjointLoop", case := "comparetipindexes",
+    P := List String, K := String, V := String, Out := Bool, hyp := fun _ _ => True,
+    body := fun p l => mergeDisjointLoop p l, inv := fun p l l' h _ => site_Merge_perm_invariant p l l' h }]
+
+/-- ★ the regenerated table (c) is exactly the list of sites proved by construction -/
+theorem sites_covered_by_construction : coreSites.map (·.key) = siteProofs.map (·.key) := by decide
+
+/-- key, model name and correspondence case of every row are those of the one table `Spec.siteCaseTable`
+    that the driver uses to say which key a site case exercises: every site has a case that runs its body -/
+theorem siteProofs_table : siteProofs.map (fun r => (r.key, r.model, r.case)) = siteCaseTable := by decide
+
+/-- the property's first sentence, as far as a model can state it.  In the model a result is a FUNCTION of
+    (input, options, random draws) and of the listing of each map it ranges over — there is no clock, address
+    or process argument by construction — and the last argument does not matter: whatever listings `orders`
+    of the map the repeated runs meet, the rendered outputs satisfy the oracle predicate `oneOutput` that the
+    driver evaluates on the real runs -/
+theorem SiteProof.runs_one_output (r : SiteProof) (render : r.Out → String) (p : r.P) (l : List (r.K × r.V))
+    (hl : r.hyp p l) (orders : List (List (r.K × r.V))) (ho : ∀ o ∈ orders, l.Perm o) :
+    oneOutput (orders.map (fun o => render (r.body p o))) = true := by
+  have hall : ∀ o ∈ orders, render (r.body p o) = render (r.body p l) :=
+    fun o h => by rw [r.inv p l o (ho o h) hl]
+  cases orders with
+  | nil => rfl
+  | cons a t =>
+    simp only [List.map_cons, oneOutput, List.all_map, List.all_eq_true, Function.comp, beq_iff_eq]
+    intro o h
+    rw [hall o (List.mem_cons_of_mem _ h), hall a (List.mem_cons_self ..)]
+
+/-- instance: the whole standard output of `gotree compare tips -i ref -f tips`, in any number of runs -/
+theorem compareTips_runs_one_output (refTips : List String) (l : List (String × Bool)) (hn : nodupKeys l = true)
+    (orders : List (List (String × Bool))) (ho : ∀ o ∈ orders, l.Perm o) :
+    oneOutput (orders.map (fun o => String.join (compareTipsOutput refTips o))) = true := by
+  have hall : ∀ o ∈ orders, compareTipsOutput refTips o = compareTipsOutput refTips l :=
+    fun o h => (compareTipsOutput_perm_invariant refTips l o (ho o h) hn).symm
+  cases orders with
+  | nil => rfl
+  | cons a t =>
+    simp only [List.map_cons, oneOutput, List.all_map, List.all_eq_true, Function.comp, beq_iff_eq]
+    intro o h
+    rw [hall o (List.mem_cons_of_mem _ h), hall a (List.mem_cons_self ..)]
 
 /-- the sites of the excluded packages are exactly the reviewed ones -/
 theorem excluded_sites_reviewed : excludedSites.map (·.key) = reviewedExcludedSites.map (·.1) := by decide
@@ -325,6 +439,21 @@ theorem env_and_clock_only_reviewed :
     map and no clock / seed / address / environment source; the scan type-checked without a note -/
 theorem dependency_goalign_clean :
     Gen.C18Sites.depSites = [] ∧ Gen.C18Sites.depSources = [] ∧ Gen.C18Sites.depNotes = [] := by decide
+
+/-- "all commands": every runnable command of the live command tree (regenerated from `cmd.RootCmd` on every
+    run) has a run template, except the four network commands, each listed with its reason; and nothing is
+    listed that is not a command -/
+theorem commands_covered :
+    uncoveredCommands = [] ∧
+    (templateCommands ++ omittedCommands.map (·.1)).all (Gen.C18Sites.commands.contains ·) = true := by decide
+
+/-- the packages the dependency scan loaded: goalign's align / io / fasta / phylip (+ what they import of
+    goalign), gostats (`Exp` draws from the global math/rand source), bitset — all clean by
+    dependency_goalign_clean, which speaks about `depSites` / `depSources` of exactly these packages -/
+theorem dependency_packages_scanned :
+    ["github.com/evolbioinfo/goalign/align", "github.com/evolbioinfo/goalign/io/fasta",
+     "github.com/evolbioinfo/goalign/io/phylip", "github.com/fredericlemoine/bitset",
+     "github.com/fredericlemoine/gostats"].all (Gen.C18Sites.depPackages.contains ·) = true := by decide
 
 /-! ### the hypotheses are satisfiable on non-trivial maps -/
 
